@@ -35,9 +35,10 @@ import socketserver
 
 logging.disable(logging.CRITICAL)
 
-START, STOP, REQUEST, STOP_BUSY, START_PORT_TAKEN, START_THREAD_FAIL = 0, 1, 2, 4, 5, 6
+START, STOP, REQUEST, STOP_BUSY, START_PORT_TAKEN, START_THREAD_FAIL, STOP_OPEN_CONN = 0, 1, 2, 4, 5, 6, 7
 OPNAME = {0: "start", 1: "stop", 2: "request", 3: "tick", 4: "stop_while_handler_blocks",
-          5: "start_while_port_is_taken", 6: "start_while_thread_creation_fails"}
+          5: "start_while_port_is_taken", 6: "start_while_thread_creation_fails",
+          7: "stop_while_a_client_connection_is_open"}
 
 
 # ============================================================================ real-server histories
@@ -51,7 +52,7 @@ class _TftpHandler(S.TftpRequestHandler):
     def can_handle(self, filename, context):
         if filename == "block":
             self.entered.set()
-            self.release.wait(8.0)
+            self.release.wait(12.0)
         return True
 
     def handle(self, filename, client_address, server_address, context):
@@ -162,7 +163,7 @@ def _extra_threads(baseline, want):
     return n
 
 
-def run_history(kind, h):
+def run_history(kind, h, hold=1.5):
     """returns the per-operation observations [raised, port bound, live server threads, request outcome, hang]"""
     baseline = set(threading.enumerate())
     port = _free_port(kind)
@@ -198,6 +199,44 @@ def run_history(kind, h):
                     raised = 1
                 else:
                     expect_running = 1 if o == START else 0
+            elif o == STOP_OPEN_CONN:
+                # stop() while a client holds an open, idle connection (HTTP: TCP connection without a request line;
+                # TFTP has no connections: a plain stop()): stop() must return within its deadline all the same
+                idle = None
+                if kind == "http" and expect_running:
+                    idle = real_socket.socket(real_socket.AF_INET6, real_socket.SOCK_STREAM)
+                    try:
+                        idle.settimeout(1.0)
+                        idle.connect(("::1", port))
+                        time.sleep(0.15)          # let the server accept it and start the worker thread
+                    except OSError:
+                        idle.close()
+                        idle = None
+                done = []
+
+                def call_stop2():
+                    try:
+                        srv.stop()
+                        done.append(0)
+                    except BaseException:      # noqa
+                        done.append(1)
+                th = threading.Thread(target=call_stop2, daemon=True)
+                th.start()
+                th.join(2.5)
+                stuck = th.is_alive()
+                if idle is not None:
+                    idle.close()               # the client goes away: a worker blocked on it ends
+                if stuck:
+                    hang = 1
+                    th.join(3.0)
+                    if th.is_alive():
+                        baseline.add(th)
+                    else:
+                        expect_running = 0
+                elif done and done[0]:
+                    raised = 1
+                else:
+                    expect_running = 0
             elif o == START_THREAD_FAIL:
                 # start() while the OS refuses a new thread: socket(), bind() succeed, Thread.start() raises once
                 mod = S if kind == "tftp" else H
@@ -298,7 +337,7 @@ def run_history(kind, h):
                         done.append(1)
                 th = threading.Thread(target=call_stop, daemon=True)
                 th.start()
-                th.join(1.5 if blocked else 5.0)
+                th.join(hold if blocked else 5.0)
                 if blocked:
                     returned = not th.is_alive()
                     live = len([t for t in threading.enumerate() if t not in baseline and t is not th and t.is_alive()])
@@ -353,7 +392,7 @@ def run_history(kind, h):
 def _job(job):
     """worker-process entry: a seq history or the schedule enumeration of one conc case"""
     if job[0] == "seq":
-        return run_history(job[1], job[2])
+        return run_history(job[1], job[2], *(job[3:4]))
     _, kind, pre, ops, bound, budget_s = job
     return conc_explore(kind, pre, ops, bound, deadline=time.time() + budget_s)
 
@@ -813,6 +852,15 @@ class C20(Check):
                 yield {"kind": "seq", "srv": kind, "h": h}
             if kind == "tftp":
                 yield {"kind": "seq", "srv": kind, "h": [START_THREAD_FAIL, START_THREAD_FAIL, START, REQUEST, STOP]}
+        # stop() while a client connection is open but idle
+        for kind in ("tftp", "http"):
+            for h in ([START, STOP_OPEN_CONN], [START, REQUEST, STOP_OPEN_CONN, START, REQUEST, STOP]):
+                yield {"kind": "seq", "srv": kind, "h": h}
+        if tier != "quick":
+            # the handler is held for longer than any plausible join time-out (real wall-clock time: 6.5 s);
+            # the quick tier holds it for 1.5 s only, see docs/C20.md
+            yield {"kind": "seq", "srv": "tftp", "h": [START, STOP_BUSY], "hold": 6.5}
+            yield {"kind": "seq", "srv": "tftp", "h": [START, REQUEST, STOP_BUSY, START, REQUEST], "hold": 6.5}
         # stop() while a request handler blocks on the main thread (costs ~1.5 s each)
         yield {"kind": "seq", "srv": "tftp", "h": [START, STOP_BUSY]}
         yield {"kind": "seq", "srv": "tftp", "h": [START, REQUEST, STOP_BUSY, START, REQUEST]}
@@ -871,7 +919,7 @@ class C20(Check):
     # ---------------------------------------------------------------- implementation
     def impl(self, c):
         if c["kind"] == "seq":
-            return run_history(c["srv"], c["h"])
+            return run_history(c["srv"], c["h"], c.get("hold", 1.5))
         if c["kind"] == "xfer":
             return run_xfer(c)
         return self._conc_done(c, conc_explore(c["srv"], c["pre"], c["ops"], c["bound"],
@@ -896,7 +944,7 @@ class C20(Check):
         jobs = []
         for i, c in enumerate(cases):
             if c["kind"] == "seq":
-                jobs.append((i, ("seq", c["srv"], c["h"])))
+                jobs.append((i, ("seq", c["srv"], c["h"], c.get("hold", 1.5))))
             elif c["kind"] == "conc":
                 jobs.append((i, ("conc", c["srv"], c["pre"], c["ops"], c["bound"], self._conc_budget())))
         pre = {}
